@@ -20,7 +20,8 @@ F = Fraction
 
 
 def shapes(tier):
-    out = [(0, (0, 0, 0)), (0, (0, 1, 0)), (1, (0, 0, 0)), (1, (0, 1, 0)), (2, (1, 0, 0)), (2, (0, 2, 0)), (3, (0, 0, 0)), (2, (0, 3, 0)), (3, (1, 0, 1)), (1, (1, 1, 1))]
+    out = [(0, (0, 0, 0)), (0, (0, 1, 0)), (1, (0, 0, 0)), (1, (0, 1, 0)), (2, (1, 0, 0)), (2, (0, 2, 0)), (3, (0, 0, 0)), (2, (0, 3, 0)), (3, (1, 0, 1)), (1, (1, 1, 1)),
+           (4, (5, 1, 1))]       # a full-multiplicity knot isolating the first span + simple knots: few control points per span elsewhere (default nodes per span)
     if tier != "quick":
         out += [(3, (0, 2, 0)), (4, (0, 0, 0)), (4, (0, 1, 0)), (2, (1, 2, 1)), (3, (0, 4, 0))]
     return out
@@ -60,7 +61,13 @@ def task_fit(p, cells, variant, rational):
     wb = dict(kind="c12", p=p, cells=cells, variant=variant, rational=rational)
     try:
         a, b = U[0], U[-1]
-        nodesets = {"default-n+3": None, "interp": greville_like(U, p, n), "over": spec.sample_params(U, p, p + 2), "default-n": None}
+        g = greville_like(U, p, n)
+        shuf = [g[(3 * i + 1) % n] for i in range(n)] if n % 3 else [g[(2 * i + 1) % n] if n % 2 else g[n - 1 - i] for i in range(n)]
+        if sorted(shuf) != sorted(g):
+            shuf = g[1:] + g[:1]
+        # the order in which (node, point) pairs are listed is irrelevant: decreasing and shuffled node lists (zero pivots in the exact solver)
+        nodesets = {"default-n+3": None, "interp": g, "interp-decreasing": g[::-1], "interp-shuffled": shuf, "over": spec.sample_params(U, p, p + 2),
+                    "over-decreasing": spec.sample_params(U, p, p + 2)[::-1], "default-n": None}
         for label, nodes in nodesets.items():
             m = len(nodes) if nodes is not None else (n if label == "default-n" else n + 3)
             if nodes is None:
